@@ -133,7 +133,7 @@ def gen_patch(rng, doc):
                 if arrs:
                     p = rng.choice(arrs)
                     n = len(node_at(cur.v, p))
-                    bad = rng.choice([str(n + rng.choice([1, 2, 10])), "+%d" % min(n, 1), "0%d" % min(n, 1), "1e0", " 0", "0 ", "-1", "18446744073709551616", "4294967296", "00", ""])
+                    bad = rng.choice([str(n + rng.choice([1, 2, 10])), "+%d" % min(n, 1), "0%d" % min(n, 1), "1e0", " 0", "0 ", "-1", "18446744073709551616", "4294967296", "00", "", ":", "1:", ":0", "0:", "2305843009213693953"])
                     op = {b"op": rng.choice([b"add", b"add", b"replace", b"remove", b"test"]), b"path": ptr(p) + b"/" + bad.encode(), b"value": None}
                     if op[b"op"] == b"add" and bad == "" :
                         op[b"op"] = b"replace"
